@@ -4,15 +4,17 @@ CONSTANTS
   KeyLen = 2
   Names = {"a"}
   Main = {"a"}
-  Opts <- OptsQuick
+  Opts <- OptsTeeth
   MaxMaj = 3
   MaxMin = 1
   MaxForks = 1
-  MaxTouch = 2
+  MaxTouch = 1
+  InitConts <- InitA1
+  InFlightReads = FALSE
   AlignedOnly = TRUE
 INVARIANT RetainedReadable
 INVARIANT PrunedNeverDifferent
 INVARIANT NoWrongNode
 INVARIANT RootCanonical
-INVARIANT DedupKeyUnique
+INVARIANT PrunedUnreadable
 CHECK_DEADLOCK FALSE
